@@ -63,13 +63,86 @@ Proof.
       pose proof (F2R_gt_0 radix2 (Float radix2 (Z.pos m) e) eq_refl). lra.
 Qed.
 
+(* the largest finite float *)
+Lemma fmaxfloat_value : B2R (fmaxfloat prec emax Hp Hpe) = Fmax /\ is_finite (fmaxfloat prec emax Hp Hpe) = true.
+Proof.
+  unfold fmaxfloat, Bmax_float. rewrite B2R_SF2B, is_finite_SF2B. split; [|reflexivity].
+  cbn [SF2R cond_Zopp]. unfold F2R. cbn [Fnum Fexp].
+  assert (Hpp : (0 < prec)%Z) by exact Hp.
+  assert (H1 : (1 < 2 ^ prec)%Z) by (apply Z.pow_gt_1; lia).
+  assert (E : Z.pos (shift_pos (Z.to_pos prec) 1 - 1) = (2 ^ prec - 1)%Z).
+  { rewrite Pos2Z.inj_sub.
+    - rewrite shift_pos_correct, Z.mul_1_r, Z.pow_pos_fold, Z2Pos.id by lia. reflexivity.
+    - change (Z.pos 1 < Z.pos (shift_pos (Z.to_pos prec) 1))%Z. rewrite shift_pos_correct, Z.mul_1_r, Z.pow_pos_fold, Z2Pos.id by lia. exact H1. }
+  rewrite E. unfold Fmax. rewrite minus_IZR.
+  change (2 ^ prec)%Z with (Zpower radix2 prec). rewrite IZR_Zpower by lia.
+  rewrite Rmult_minus_distr_r, <- bpow_plus. replace (prec + (emax - prec))%Z with emax by lia. ring.
+Qed.
+
+Lemma Fmax_ge_256 : 256 <= Fmax.
+Proof.
+  unfold Fmax. assert (Hpp : (0 < prec)%Z) by exact Hp.
+  assert (bpow radix2 (emax - prec) <= bpow radix2 (emax - 1)) by (apply bpow_le; lia).
+  assert (bpow radix2 emax = 2 * bpow radix2 (emax - 1)).
+  { replace emax with (1 + (emax - 1))%Z at 1 by lia. rewrite bpow_plus. reflexivity. }
+  assert (256 <= bpow radix2 (emax - 1)) by (change 256 with (bpow radix2 8); apply bpow_le; lia).
+  lra.
+Qed.
+
+(* the float quotient after nan_to_num: a finite float that is either the correctly rounded quotient
+   or, when that overflows, the largest finite float of the sign of the exact quotient *)
+Lemma div_nan_to_num (x s : fl) :
+  is_finite x = true -> is_finite s = true -> 0 < B2R s ->
+  let Y := B2R x / B2R s in
+  let q := nan_to_num prec emax Hp Hpe (Bdiv mode_NE x s) in
+  is_finite q = true /\
+  (B2R q = rnd Y \/ (255 < Y /\ 255 <= B2R q) \/ (Y < -255 /\ B2R q <= -255)).
+Proof.
+  intros Fx Fs Sp Y q. set (X := B2R x) in *. set (S := B2R s) in *.
+  assert (SP : 0 < S) by exact Sp.
+  pose proof (Bdiv_correct prec emax Hp Hpe mode_NE x s ltac:(fold S; lra)) as HD.
+  cbn [round_mode] in HD. fold X S Y in HD.
+  destruct (Rlt_bool_spec (Rabs (rnd Y)) (bpow radix2 emax)) as [Hno|Hov].
+  - destruct HD as (HQ & FQ & _). rewrite Fx in FQ.
+    assert (Eq : q = Bdiv mode_NE x s).
+    { unfold q. destruct (Bdiv mode_NE x s); try discriminate FQ; reflexivity. }
+    rewrite Eq. split; [exact FQ|]. left. exact HQ.
+  - assert (HY255 : 255 < Rabs Y).
+    { destruct (Rle_or_lt (Rabs Y) 255) as [H|H]; [|exact H]. exfalso.
+      pose proof (rnd_le_255 Y H). pose proof (bpow_emax_big emax Hemax9). lra. }
+    assert (Xnz : X <> 0).
+    { intros E. unfold Y in HY255. rewrite E in HY255. unfold Rdiv in HY255.
+      rewrite Rmult_0_l, Rabs_R0 in HY255. lra. }
+    assert (Ssign : Bsign s = false).
+    { destruct (Bsign s) eqn:E; [|reflexivity]. exfalso.
+      assert (Nz : S <> 0) by lra. apply (proj1 (finite_sign s Fs Nz)) in E. fold S in E. lra. }
+    rewrite Ssign, xorb_false_r in HD.
+    assert (Hq : Bdiv mode_NE x s = B754_infinity (Bsign x)).
+    { apply B2SF_inj. rewrite HD. reflexivity. }
+    pose proof (finite_sign x Fx Xnz) as Hsx. fold X in Hsx.
+    destruct fmaxfloat_value as [HMv HMf]. pose proof Fmax_ge_256 as HF.
+    assert (0 < / S) by (apply Rinv_0_lt_compat; lra).
+    unfold q. rewrite Hq. cbn [nan_to_num]. destruct (Bsign x) eqn:Esx.
+    + assert (Xneg : X < 0) by (apply Hsx; reflexivity).
+      assert (Y < 0) by (unfold Y, Rdiv; nra).
+      rewrite Rabs_left in HY255 by lra.
+      rewrite is_finite_Bopp, B2R_Bopp, HMv. split; [exact HMf|]. right. right. lra.
+    + assert (Xpos : 0 < X).
+      { destruct (Rtotal_order X 0) as [H1|[H1|H1]]; [|congruence|exact H1].
+        apply Hsx in H1. discriminate H1. }
+      assert (0 < Y) by (unfold Y, Rdiv; nra).
+      rewrite Rabs_pos_eq in HY255 by lra.
+      rewrite HMv. split; [exact HMf|]. right. left. lra.
+Qed.
+
 (* the quantity every statement below is about: the element-level functions at this float format *)
 Definition qcode (x s : fl) : fl := symq qint8 x s.
 Definition qdeq (x s : fl) : fl := symdq qint8 x s.
 
 Lemma qcode_unfold x s :
   qcode x s = cast_wrap prec emax Hp Hpe true
-    (fmin prec emax (fmax prec emax (Bnearbyint mode_NE (Bdiv mode_NE x s)) (fof_Z prec emax Hp Hpe (-128)))
+    (fmin prec emax (fmax prec emax (Bnearbyint mode_NE (nan_to_num prec emax Hp Hpe (Bdiv mode_NE x s)))
+                                    (fof_Z prec emax Hp Hpe (-128)))
                     (fof_Z prec emax Hp Hpe 127)).
 Proof. reflexivity. Qed.
 
@@ -88,96 +161,63 @@ Proof.
   { pose proof (Rabs_pos X). assert (0 <= u * Rabs X) by (apply Rmult_le_pos; lra).
     assert (0 <= S * eta) by (apply Rmult_le_pos; lra). lra. }
   rewrite qcode_unfold.
-  pose proof (Bdiv_correct prec emax Hp Hpe mode_NE x s ltac:(fold S; lra)) as HD.
-  cbn [round_mode] in HD. fold X S Y in HD.
-  destruct (Rlt_bool_spec (Rabs (rnd Y)) (bpow radix2 emax)) as [Hno|Hov].
-  - (* no overflow in the division *)
-    destruct HD as (HQ & FQ & _). rewrite Fx in FQ.
-    set (q := Bdiv mode_NE x s) in *.
-    pose proof (Bnearbyint_correct prec emax Hpe mode_NE q) as (HR & FR & _).
-    cbn [round_mode] in HR. rewrite round_FIX_IZR in HR. rewrite FQ in FR. rewrite HQ in HR.
-    set (n := ZnearestE (rnd Y)) in *.
-    set (r := Bnearbyint mode_NE q) in *.
-    destruct (fmax_finite prec emax r _ FR Flo) as [HM1 FM1].
-    destruct (fmin_finite prec emax _ _ FM1 Fhi) as [HM2 FM2].
-    rewrite HM1, HR, Hlo, Hhi in HM2. rewrite clamp_IZR in HM2.
-    set (k := clampZ (-128) 127 n) in *.
-    assert (Hk : (-128 <= k <= 127)%Z) by (unfold k, clampZ; lia).
-    exists k. split; [exact Hk|]. split.
-    + exact (proj1 (cast_int8_exact prec emax Hp Hpe _ k FM2 HM2 Hk)).
-    + intros v Hv.
-      pose proof (clamp_nearest (-128) 127 (rnd Y) v ltac:(lia) Hv) as Hn. fold n k in Hn.
-      pose proof (rnd_err prec emax Hp Y) as Herr.
-      (* |k - Y| <= |v - Y| + 2 |rnd Y - Y| *)
-      assert (H1 : Rabs (IZR k - Y) <= Rabs (IZR v - Y) + 2 * Rabs (rnd Y - Y)).
-      { replace (IZR k - Y) with ((IZR k - rnd Y) + (rnd Y - Y)) by ring.
-        eapply Rle_trans; [apply Rabs_triang|].
-        assert (Rabs (IZR v - rnd Y) <= Rabs (IZR v - Y) + Rabs (rnd Y - Y)).
-        { replace (IZR v - rnd Y) with ((IZR v - Y) + - (rnd Y - Y)) by ring.
-          eapply Rle_trans; [apply Rabs_triang|]. rewrite Rabs_Ropp. lra. }
-        lra. }
-      assert (HY : Rabs Y = Rabs X / S).
-      { unfold Y. unfold Rdiv. rewrite Rabs_mult, Rabs_inv. rewrite (Rabs_pos_eq S) by lra. reflexivity. }
-      replace (S * IZR k - X) with (S * (IZR k - Y)) by (unfold Y; field; lra).
-      replace (S * IZR v - X) with (S * (IZR v - Y)) by (unfold Y; field; lra).
-      rewrite !Rabs_mult, (Rabs_pos_eq S) by lra.
-      assert (S * Rabs (rnd Y - Y) <= u * Rabs X + S * eta).
-      { rewrite HY in Herr.
-        apply Rle_trans with (S * (u * (Rabs X / S) + eta)); [apply Rmult_le_compat_l; lra|].
-        right. field. lra. }
-      nra.
-  - (* the quotient overflows: the float quotient is an infinity of the sign of x *)
-    assert (HY255 : 255 < Rabs Y).
-    { destruct (Rle_or_lt (Rabs Y) 255) as [H|H]; [|exact H]. exfalso.
-      pose proof (rnd_le_255 Y H). pose proof (bpow_emax_big emax Hemax9). lra. }
-    assert (Xnz : X <> 0).
-    { intros E. unfold Y in HY255. rewrite E in HY255. unfold Rdiv in HY255.
-      rewrite Rmult_0_l, Rabs_R0 in HY255. lra. }
-    assert (Ssign : Bsign s = false).
-    { destruct (Bsign s) eqn:E; [|reflexivity]. exfalso.
-      assert (Nz : B2R s <> 0) by lra. apply (proj1 (finite_sign s Fs Nz)) in E. lra. }
-    rewrite Ssign, xorb_false_r in HD.
-    assert (Hq : Bdiv mode_NE x s = B754_infinity (Bsign x)).
-    { apply B2SF_inj. rewrite HD. reflexivity. }
-    rewrite Hq. cbn [Bnearbyint].
-    pose proof (finite_sign x Fx Xnz) as Hsx. fold X in Hsx.
-    rewrite (fmax_inf_l prec emax (Bsign x) _ Flo).
-    destruct (Bsign x) eqn:Esx.
-    + (* x < 0: code -128, and x/s < -255 *)
-      assert (Xneg : X < 0) by (apply Hsx; reflexivity).
-      assert (Yneg : Y < -255).
-      { assert (0 < / S) by (apply Rinv_0_lt_compat; lra).
-        assert (Y < 0) by (unfold Y, Rdiv; nra).
-        rewrite Rabs_left in HY255 by lra. lra. }
-      destruct (fmin_finite prec emax _ _ Flo Fhi) as [HM2 FM2].
-      rewrite Hlo, Hhi, Rmin_left in HM2 by lra.
-      exists (-128)%Z. split; [lia|]. split.
-      * exact (proj1 (cast_int8_exact prec emax Hp Hpe _ (-128)%Z FM2 HM2 ltac:(lia))).
-      * intros v Hv. set (SL := 2 * (u * Rabs X + S * eta)) in *.
-        replace (S * IZR (-128) - X) with (S * (IZR (-128) - Y)) by (unfold Y; field; lra).
-        replace (S * IZR v - X) with (S * (IZR v - Y)) by (unfold Y; field; lra).
-        rewrite !Rabs_mult, (Rabs_pos_eq S) by lra.
-        assert (IZR (-128) <= IZR v) by (apply IZR_le; lia).
-        rewrite !Rabs_pos_eq by lra.
-        assert (S * (IZR (-128) - Y) <= S * (IZR v - Y)) by (apply Rmult_le_compat_l; lra). lra.
-    + (* x > 0: code 127 *)
-      assert (Xpos : 0 < X).
-      { destruct (Rtotal_order X 0) as [H|[H|H]]; [|congruence|exact H].
-        apply Hsx in H. discriminate H. }
-      assert (Ypos : 255 < Y).
-      { assert (0 < / S) by (apply Rinv_0_lt_compat; lra).
-        assert (0 < Y) by (unfold Y, Rdiv; nra).
-        rewrite Rabs_pos_eq in HY255 by lra. lra. }
-      rewrite (fmin_pinf_l prec emax _ Fhi).
-      exists 127%Z. split; [lia|]. split.
-      * exact (proj1 (cast_int8_exact prec emax Hp Hpe _ 127%Z Fhi Hhi ltac:(lia))).
-      * intros v Hv. set (SL := 2 * (u * Rabs X + S * eta)) in *.
-        replace (S * IZR 127 - X) with (- (S * (Y - IZR 127))) by (unfold Y; field; lra).
-        replace (S * IZR v - X) with (- (S * (Y - IZR v))) by (unfold Y; field; lra).
-        rewrite !Rabs_Ropp, !Rabs_mult, (Rabs_pos_eq S) by lra.
-        assert (IZR v <= IZR 127) by (apply IZR_le; lia).
-        rewrite !Rabs_pos_eq by lra.
-        assert (S * (Y - IZR 127) <= S * (Y - IZR v)) by (apply Rmult_le_compat_l; lra). lra.
+  destruct (div_nan_to_num x s Fx Fs Sp) as [FQ HQ]. fold X S Y in HQ.
+  set (q := nan_to_num prec emax Hp Hpe (Bdiv mode_NE x s)) in *.
+  pose proof (Bnearbyint_correct prec emax Hpe mode_NE q) as (HR & FR & _).
+  cbn [round_mode] in HR. rewrite round_FIX_IZR in HR. rewrite FQ in FR.
+  set (n := ZnearestE (B2R q)) in *.
+  set (r := Bnearbyint mode_NE q) in *.
+  destruct (fmax_finite prec emax r _ FR Flo) as [HM1 FM1].
+  destruct (fmin_finite prec emax _ _ FM1 Fhi) as [HM2 FM2].
+  rewrite HM1, HR, Hlo, Hhi in HM2. rewrite clamp_IZR in HM2.
+  set (k := clampZ (-128) 127 n) in *.
+  assert (Hk : (-128 <= k <= 127)%Z) by (unfold k, clampZ; lia).
+  exists k. split; [exact Hk|]. split.
+  { exact (proj1 (cast_int8_exact prec emax Hp Hpe _ k FM2 HM2 Hk)). }
+  intros v Hv.
+  assert (HS1 : forall a : R, S * a - X = S * (a - Y)) by (intros a; unfold Y; field; lra).
+  destruct HQ as [HQ|[[HY HQ]|[HY HQ]]].
+  - (* the quotient was rounded normally *)
+    assert (En : n = ZnearestE (rnd Y)) by (unfold n; rewrite HQ; reflexivity).
+    pose proof (clamp_nearest (-128) 127 (rnd Y) v ltac:(lia) Hv) as Hn. rewrite <- En in Hn. fold k in Hn.
+    pose proof (rnd_err prec emax Hp Y) as Herr.
+    assert (H1 : Rabs (IZR k - Y) <= Rabs (IZR v - Y) + 2 * Rabs (rnd Y - Y)).
+    { replace (IZR k - Y) with ((IZR k - rnd Y) + (rnd Y - Y)) by ring.
+      eapply Rle_trans; [apply Rabs_triang|].
+      assert (Rabs (IZR v - rnd Y) <= Rabs (IZR v - Y) + Rabs (rnd Y - Y)).
+      { replace (IZR v - rnd Y) with ((IZR v - Y) + - (rnd Y - Y)) by ring.
+        eapply Rle_trans; [apply Rabs_triang|]. rewrite Rabs_Ropp. lra. }
+      lra. }
+    assert (HYa : Rabs Y = Rabs X / S).
+    { unfold Y. unfold Rdiv. rewrite Rabs_mult, Rabs_inv. rewrite (Rabs_pos_eq S) by lra. reflexivity. }
+    rewrite !HS1, !Rabs_mult, (Rabs_pos_eq S) by lra.
+    assert (S * Rabs (rnd Y - Y) <= u * Rabs X + S * eta).
+    { rewrite HYa in Herr.
+      apply Rle_trans with (S * (u * (Rabs X / S) + eta)); [apply Rmult_le_compat_l; lra|].
+      right. field. lra. }
+    nra.
+  - (* overflow towards +inf: the code is 127 and x/s > 255 *)
+    assert (Hn : (255 <= n)%Z).
+    { unfold n. apply le_IZR.
+      pose proof (Znearest_ge_floor (fun z => negb (Z.even z)) (B2R q)) as Hf. fold ZnearestE in Hf.
+      apply IZR_le in Hf. eapply Rle_trans; [|exact Hf]. apply IZR_le, Zfloor_lub. exact HQ. }
+    assert (Ek : k = 127%Z) by (unfold k, clampZ; lia). rewrite Ek.
+    set (SL := 2 * (u * Rabs X + S * eta)) in *.
+    rewrite !HS1, !Rabs_mult, (Rabs_pos_eq S) by lra.
+    assert (IZR v <= IZR 127) by (apply IZR_le; lia).
+    rewrite <- (Rabs_Ropp (IZR 127 - Y)), <- (Rabs_Ropp (IZR v - Y)), !Rabs_pos_eq by lra.
+    assert (S * - (IZR 127 - Y) <= S * - (IZR v - Y)) by (apply Rmult_le_compat_l; lra). lra.
+  - (* overflow towards -inf *)
+    assert (Hn : (n <= -255)%Z).
+    { unfold n. apply le_IZR.
+      pose proof (Znearest_le_ceil (fun z => negb (Z.even z)) (B2R q)) as Hf. fold ZnearestE in Hf.
+      apply IZR_le in Hf. eapply Rle_trans; [exact Hf|]. apply IZR_le, Zceil_glb. exact HQ. }
+    assert (Ek : k = (-128)%Z) by (unfold k, clampZ; lia). rewrite Ek.
+    set (SL := 2 * (u * Rabs X + S * eta)) in *.
+    rewrite !HS1, !Rabs_mult, (Rabs_pos_eq S) by lra.
+    assert (IZR (-128) <= IZR v) by (apply IZR_le; lia).
+    rewrite !Rabs_pos_eq by lra.
+    assert (S * (IZR (-128) - Y) <= S * (IZR v - Y)) by (apply Rmult_le_compat_l; lra). lra.
 Qed.
 
 (* dequantization: finite, and within one rounding of the exact product *)
